@@ -325,3 +325,14 @@ for _p, _g in CMP_OF.items():
     PROPS[_p]["theorems"] = list(PROPS[_p].get("theorems", [])) + CMP(*_g) + \
         ["RModel.Facts.cowSkeleton%s_pinned" % g for g in COW_OF.get(_p, ())]
     PROPS[_p]["modules"] = list(PROPS[_p].get("modules", [])) + [CMP_MOD]
+
+# the readable top layer: lean/RProofs/Statements/Cxx.lean restates every clause of the property (theorems `clause_*`); all of them
+# are obligations of that property
+import os as _os, re as _re
+_SDIR = _os.path.join(_os.path.dirname(_os.path.dirname(_os.path.abspath(__file__))), "lean", "RProofs", "Statements")
+for _p in sorted(PROPS):
+    _f = _os.path.join(_SDIR, _p + ".lean")
+    if _os.path.exists(_f):
+        _names = _re.findall(r"^theorem (clause_[A-Za-z0-9_']+)", open(_f).read(), _re.M)
+        PROPS[_p]["theorems"] = list(PROPS[_p].get("theorems", [])) + ["RModel.Statements.%s.%s" % (_p, n) for n in _names]
+        PROPS[_p]["modules"] = list(PROPS[_p].get("modules", [])) + ["RProofs.Statements." + _p]
